@@ -42,6 +42,8 @@ Definition G (off nchan : Z) (sampled : list (Z * bool)) : ginfo :=
 Definition P (off nchan sn : Z) (wide : bool) (d : list Z) : packet :=
   {| p_sn := sn; p_nchan := nchan; p_off := off; p_wide := wide; p_data := d |}.
 Definition S (first dropped : Z) (d : list Z) : seg := {| sg_first := first; sg_dropped := dropped; sg_data := d |}.
+(* a long constant run inside observed sample data (the harness run-length encodes runs of filler) *)
+Definition rep (v n : Z) : list Z := repeat v (Z.to_nat n).
 Definition B (nsamp : Z) (segs : list seg) : block := {| k_nsamp := nsamp; k_segs := segs |}.
 Definition mk (fpp : Z) (gs : list ginfo) (ticks : list (list packet)) (obs : list block) : case :=
   {| c_inp := {| i_fpp := fpp; i_groups := gs; i_ticks := ticks |}; c_obs := Some obs |}.
